@@ -162,9 +162,117 @@ CaseResult run_static(const RunCtx &ctx, TapeReader &t, unsigned size_hint) {
     return res;
 }
 
+/// "big bulk" mode: the C dynamic index is a DynamicPGMIndex with default parameters, whose levels carry a PGM-index only from 2^21
+/// entries on. create() with more than 2^21 pairs is the only way to put queries through an indexed level from C.
+template<typename K>
+CaseResult run_dyn_big(const RunCtx &ctx, TapeReader &t) {
+    using C = CDyn<K>;
+    CaseResult res;
+    const bool mem = ctx.mode == "mem";
+    size_t n = (size_t(1) << 21) - 2 + t.below(300000); // from just below the threshold to 2.4M pairs
+    uint64_t gmax = 1 + t.below(200);
+    uint64_t seed = t.bits(64);
+    size_t n_upd = t.below(300), n_q = 5000 + t.below(25000);
+    if (ctx.want_desc) {
+        std::ostringstream d;
+        d << "dynamic_pgm_index_" << type_name<K>() << " create(" << n << " sorted pairs, gaps 1.." << gmax << "), " << n_upd << " updates, " << n_q
+          << " x (find, lower_bound(k+1) + 3 x iterator_next), begin walk, size\n";
+        res.desc = d.str();
+    }
+    if (!ctx.execute) return res;
+    SplitMix pr(seed);
+    std::vector<typename C::P> pairs(n);
+    K cur = (K) pr.below(1000);
+    for (size_t i = 0; i < n; ++i) {
+        cur = K(cur + 1 + (K) pr.below(gmax));
+        pairs[i] = {cur, (K) (i % 1000003)};
+    }
+    typename C::H *h = C::create(pairs.data(), n);
+    if (!h) {
+        res.fail("create returned NULL on valid input");
+        return res;
+    }
+    res.label("dynamic_big_bulk");
+    if (n > (size_t(1) << 21)) res.label("dynamic_indexed_level");
+    std::map<K, K> overlay;       // key -> value, or tombstone marked in erased
+    std::map<K, bool> erased;
+    uint64_t checks = 0;
+    for (size_t u = 0; u < n_upd && res.ok; ++u) {
+        K k = pr.below(2) ? pairs[pr.below(n)].first : K(pairs[pr.below(n)].first + 1);
+        if (pr.below(3) == 0) {
+            C::erase(h, k);
+            overlay.erase(k);
+            erased[k] = true;
+        } else {
+            K v = (K) (1 + pr.below(1000000));
+            C::insert(h, k, v);
+            overlay[k] = v;
+            erased.erase(k);
+        }
+    }
+    // materialise the model once
+    std::vector<std::pair<K, K>> model;
+    model.reserve(n + overlay.size());
+    {
+        auto ov = overlay.begin();
+        for (size_t i = 0; i < n; ++i) {
+            while (ov != overlay.end() && ov->first < pairs[i].first) model.push_back(*ov++);
+            if (ov != overlay.end() && ov->first == pairs[i].first) {
+                model.push_back(*ov++);
+                continue;
+            }
+            if (!erased.count(pairs[i].first)) model.emplace_back(pairs[i].first, pairs[i].second);
+        }
+        while (ov != overlay.end()) model.push_back(*ov++);
+    }
+    auto mlb = [&](K q) { return std::lower_bound(model.begin(), model.end(), q, [](const std::pair<K, K> &a, K b) { return a.first < b; }); };
+    for (size_t i = 0; i < n_q && res.ok; ++i) {
+        K base = pairs[pr.below(n)].first;
+        K q = K(base + (K) pr.below(3)); // the key, key+1, key+2
+        K v = K();
+        bool got = C::find(h, q, &v);
+        auto it = mlb(q);
+        bool want = it != model.end() && it->first == q;
+        ++checks;
+        if (!mem && (got != want || (got && v != it->second))) {
+            res.fail("find(" + key_str(q) + ") = " + (got ? "true" : "false") + ", model " + (want ? "has it" : "has no such key"));
+            break;
+        }
+        void *ci = C::lower_bound(h, q);
+        for (int s = 0; s < 3; ++s, ++checks) {
+            K kk = K(), vv = K();
+            bool more = C::next(h, ci, &kk, &vv);
+            if (mem) {
+                if (!more) break;
+                continue;
+            }
+            if (it == model.end()) {
+                if (more) res.fail("lower_bound(" + key_str(q) + ") + next returned " + key_str(kk) + " after the model was exhausted");
+                break;
+            }
+            if (!more || kk != it->first || vv != it->second) {
+                res.fail("lower_bound(" + key_str(q) + ") + iterator_next step " + std::to_string(s) + " returned " + (more ? key_str(kk) : std::string("false")) +
+                         ", model expects " + key_str(it->first));
+                break;
+            }
+            ++it;
+        }
+        C::it_destroy(ci);
+    }
+    if (res.ok) {
+        size_t sz = C::size(h);
+        if (!mem && sz != model.size()) res.fail("size() = " + std::to_string(sz) + ", model " + std::to_string(model.size()));
+    }
+    C::destroy(h);
+    res.sum("oracle_checks", checks);
+    res.nontrivial = n > (size_t(1) << 21);
+    return res;
+}
+
 template<typename K>
 CaseResult run_dyn(const RunCtx &ctx, TapeReader &t, unsigned size_hint) {
     using C = CDyn<K>;
+    if (size_hint >= 97 && ctx.mode != "mem" && t.chance(1, 10)) return run_dyn_big<K>(ctx, t);
     CaseResult res;
     const bool mem = ctx.mode == "mem";
     KeyMeta meta;
